@@ -1,4 +1,5 @@
 import FlexiVerif.Lemmas.FlwReopen
+import FlexiVerif.Lemmas.FlwReopenDirect
 /-
   C18 — `reopen_output` and `reset_flw` switch files without losing or reordering records.
 
@@ -15,6 +16,10 @@ import FlexiVerif.Lemmas.FlwReopen
   C.  rotation (`numbers` / `timestamps`, or none) together with `extRename` / `reopen`, any
       clock: the order-free statement `rotation_rename_files`. (`extRemove` and the direct
       namings are not part of C.)
+  D.  the same for every naming scheme, i.e. also `numbersDirect` / `timestampsDirect`:
+      `rotation_rename_files_all` (as stated, with a monotone clock),
+      `rotation_rename_files_any_clock` (the clock hypothesis is not needed),
+      `direct_path_free` (a direct-scheme rotation / `reopen` never re-opens an existing file).
   All statements are proved in full; nothing is `_partial`.
 -/
 namespace FV.C18
@@ -413,5 +418,143 @@ example : parts (runOps (init exCfgC []) exC).dir = [[6, 7], [1, 2, 3, 4, 5], [8
     allFilesWithPending (runOps (init exCfgC []) exC) = [[8], [6, 7], [1, 2, 3, 4, 5]] ∧
     allFilesWithPending (runOps (init exCfgC []) (exC.take 6)) = [[6, 7], [1, 2, 3, 4, 5]] ∧
     parts (runOps (init exCfgC []) (exC.take 6)).dir = [[], [1, 2, 3, 4, 5]] := by decide
+
+/-! ## D — the direct namings -/
+
+/-- the configurations of part C plus the direct namings -/
+def CfgAll (cfg : Cfg) : Prop :=
+  cfg.append = false ∧ (∀ r, cfg.rot = some r → r.cleanup = none)
+
+/-- `CfgAll` = the configurations of part C, or rotation with a direct naming -/
+theorem cfgAll_cases {cfg : Cfg} (hc : CfgAll cfg) : CfgA cfg ∨ ∃ r, FlwB.CfgR cfg r := by
+  obtain ⟨happ, hcl⟩ := hc
+  cases hr : cfg.rot with
+  | none => exact Or.inl ⟨happ, hcl, by intro r h; rw [hr] at h; cases h⟩
+  | some r =>
+    cases hnm : r.naming with
+    | numbers => exact Or.inl ⟨happ, hcl, by intro r' h; rw [hr] at h; cases h; exact Or.inl hnm⟩
+    | timestamps => exact Or.inl ⟨happ, hcl, by intro r' h; rw [hr] at h; cases h; exact Or.inr hnm⟩
+    | numbersDirect => exact Or.inr ⟨r, hr, happ, hcl r hr, Or.inl hnm⟩
+    | timestampsDirect => exact Or.inr ⟨r, hr, happ, hcl r hr, Or.inr hnm⟩
+
+/-- **The direct namings never re-open a file.** At every point of a history of part C with
+    `numbersDirect` / `timestampsDirect`: if the file behind the descriptor is not at the path
+    (somebody has moved it away) then there is no file at the path, so `reopen` creates a new
+    one; and the next name a rotation chooses (`numbersDirect`: the index is advanced by the
+    rotation itself, whether or not the file is still there; `timestampsDirect`: `collisionFree`
+    of the directory at that moment — possibly the very stamp name the moved file had) is the
+    name of no file (`ReopenD.mountNextCore_chronD`). Hence `openFile` never truncates. -/
+theorem direct_path_free (cfg : Cfg) (r : RotCfg) (hc : FlwB.CfgR cfg r)
+    (ops : List (Op × Nat × Faults)) (h : HistA1 ops) (a : Active)
+    (hact : (runOps (init cfg []) ops).act = some a) (hne : a.handle ≠ a.path) :
+    (runOps (init cfg []) ops).dir.get a.path = none :=
+  ReopenD.path_free (ReopenD.run_chronD hc ops (init cfg []) [] (ReopenD.chronS_init cfg) h)
+    a hact hne
+
+/-- **Rotation + external rename + `reopen`, every naming scheme, any clock.** The statement of
+    `rotation_rename_files` for `numbers`, `timestamps`, `numbersDirect`, `timestampsDirect` and
+    the non-rotating writer (every criterion, buffer capacity; no cleanup, no append). No
+    hypothesis on the clock: the direct namings too always open a name that no file of the
+    directory has (see `direct_path_free`), whatever the clock shows. -/
+theorem rotation_rename_files_any_clock (cfg : Cfg) (hc : CfgAll cfg)
+    (ops : List (Op × Nat × Faults)) (h : HistA1 ops) :
+    ∃ groups : List (List (List Nat)), groups.flatten = records ops ∧
+      (groups.map List.flatten).Perm (allFilesWithPending (runOps (init cfg []) ops)) := by
+  rcases cfgAll_cases hc with hA | ⟨r, hB⟩
+  · exact rotation_rename_files cfg hA ops h
+  · exact ReopenD.direct_files hB ops h
+
+/-- **Rotation + external rename + `reopen`, every naming scheme.** (statement as
+    `rotation_rename_files`; the hypothesis `Monotone ops` is not used, see
+    `rotation_rename_files_any_clock`) -/
+theorem rotation_rename_files_all (cfg : Cfg) (hc : CfgAll cfg) (ops : List (Op × Nat × Faults))
+    (h : HistA1 ops) (hm : Monotone ops) :
+    ∃ groups : List (List (List Nat)), groups.flatten = records ops ∧
+      (groups.map List.flatten).Perm (allFilesWithPending (runOps (init cfg []) ops)) :=
+  have _ := hm
+  rotation_rename_files_any_clock cfg hc ops h
+
+/-- non-vacuity, `numbersDirect`: `BufWriter` of 8 bytes; a forced rotation with 5 buffered bytes
+    (`r00000` → `r00001`), `r00001` is renamed away with one record in the buffer, one more
+    record before `reopen` (which creates a new `r00001`), one after it -/
+def exCfgDN : Cfg := ⟨some ⟨some 100, none, .numbersDirect, none⟩, false, some 8, false, true⟩
+
+def exDN : List (Op × Nat × Faults) :=
+  [(.write [1, 2, 3], 1, noFaults), (.write [4, 5], 1, noFaults), (.rotate, 2, noFaults),
+   (.write [6], 3, noFaults), (.extRename, 0, noFaults), (.write [7], 4, noFaults),
+   (.reopen, 5, noFaults), (.write [8], 6, noFaults), (.flush, 0, noFaults)]
+
+example : CfgAll exCfgDN ∧ HistA1 exDN ∧ Monotone exDN := by
+  refine ⟨⟨rfl, ?_⟩, by unfold HistA1; decide, by unfold Monotone; decide⟩
+  intro r h; cases h; rfl
+
+example : allFilesWithPending (runOps (init exCfgDN []) exDN) = [[8], [6, 7], [1, 2, 3, 4, 5]] ∧
+    ents (runOps (init exCfgDN []) exDN).dir =
+      [(⟨some (.num 1), false⟩, ⟨[8], 5⟩), (extN 0, ⟨[6, 7], 2⟩),
+       (⟨some (.num 0), false⟩, ⟨[1, 2, 3, 4, 5], 1⟩)] ∧
+    allFilesWithPending (runOps (init exCfgDN []) (exDN.take 6)) = [[6, 7], [1, 2, 3, 4, 5]] ∧
+    parts (runOps (init exCfgDN []) exDN).dir = [[6, 7], [1, 2, 3, 4, 5], [8]] := by decide
+
+/-- `numbersDirect`, a rotation while the file is moved away: the index is advanced all the same
+    (`r00000` is gone, the writer continues in `r00001`), the buffered record `[2]` goes to the
+    moved file -/
+def exDN2 : List (Op × Nat × Faults) :=
+  [(.write [1], 1, noFaults), (.extRename, 0, noFaults), (.write [2], 2, noFaults),
+   (.rotate, 3, noFaults), (.write [3], 4, noFaults), (.flush, 0, noFaults)]
+
+example : HistA1 exDN2 ∧ Monotone exDN2 ∧
+    ents (runOps (init exCfgDN []) exDN2).dir =
+      [(⟨some (.num 1), false⟩, ⟨[3], 3⟩), (extN 0, ⟨[1, 2], 1⟩)] := by
+  refine ⟨by unfold HistA1; decide, by unfold Monotone; decide, by decide⟩
+
+/-- non-vacuity, `timestampsDirect`, everything in the same second: the forced rotation goes to
+    `.restart-0000`, that file is renamed away with one record in the buffer, one more record
+    before `reopen` (which creates a new `.restart-0000`), one after it; the next rotation goes
+    to `.restart-0001` -/
+def exCfgDT : Cfg := ⟨some ⟨some 100, none, .timestampsDirect, none⟩, false, some 8, false, true⟩
+
+def exDT : List (Op × Nat × Faults) :=
+  [(.write [1, 2, 3], 5, noFaults), (.write [4, 5], 5, noFaults), (.rotate, 5, noFaults),
+   (.write [6], 5, noFaults), (.extRename, 0, noFaults), (.write [7], 5, noFaults),
+   (.reopen, 0, noFaults), (.write [8], 5, noFaults), (.rotate, 5, noFaults),
+   (.write [9], 5, noFaults), (.flush, 0, noFaults)]
+
+example : CfgAll exCfgDT ∧ HistA1 exDT ∧ Monotone exDT := by
+  refine ⟨⟨rfl, ?_⟩, by unfold HistA1; decide, by unfold Monotone; decide⟩
+  intro r h; cases h; rfl
+
+example : allFilesWithPending (runOps (init exCfgDT []) exDT) =
+      [[9], [8], [6, 7], [1, 2, 3, 4, 5]] ∧
+    ents (runOps (init exCfgDT []) exDT).dir =
+      [(⟨some (.ts 5 (some 1)), false⟩, ⟨[9], 5⟩), (⟨some (.ts 5 (some 0)), false⟩, ⟨[8], 0⟩),
+       (extN 0, ⟨[6, 7], 5⟩), (⟨some (.ts 5 none), false⟩, ⟨[1, 2, 3, 4, 5], 5⟩)] ∧
+    allFilesWithPending (runOps (init exCfgDT []) (exDT.take 6)) = [[6, 7], [1, 2, 3, 4, 5]] ∧
+    parts (runOps (init exCfgDT []) exDT).dir = [[6, 7], [1, 2, 3, 4, 5], [8], [9]] := by decide
+
+/-- `timestampsDirect`, a rotation in the same second while the file is moved away: the moved
+    file no longer has the stamp name, `collisionFree` chooses that very name again — for a new
+    file, nothing is truncated; the buffered record `[2]` goes to the moved file -/
+def exDT2 : List (Op × Nat × Faults) :=
+  [(.write [1], 5, noFaults), (.extRename, 0, noFaults), (.write [2], 5, noFaults),
+   (.rotate, 5, noFaults), (.write [3], 5, noFaults), (.flush, 0, noFaults)]
+
+example : HistA1 exDT2 ∧ Monotone exDT2 ∧
+    ents (runOps (init exCfgDT []) exDT2).dir =
+      [(⟨some (.ts 5 none), false⟩, ⟨[3], 5⟩), (extN 0, ⟨[1, 2], 5⟩)] := by
+  refine ⟨by unfold HistA1; decide, by unfold Monotone; decide, by decide⟩
+
+/-- `timestampsDirect`, a clock that runs backwards (7, then 5, then 7 again): the names are
+    still fresh (`.restart-0000` for the second file of second 7 would only be needed if the
+    first one were still there — it has been moved away) -/
+def exDT3 : List (Op × Nat × Faults) :=
+  [(.write [1], 5, noFaults), (.rotate, 7, noFaults), (.write [2], 7, noFaults),
+   (.extRename, 0, noFaults), (.rotate, 5, noFaults), (.write [3], 5, noFaults),
+   (.rotate, 7, noFaults), (.write [4], 4, noFaults), (.flush, 0, noFaults)]
+
+example : HistA1 exDT3 ∧ ¬ Monotone exDT3 ∧
+    ents (runOps (init exCfgDT []) exDT3).dir =
+      [(⟨some (.ts 7 none), false⟩, ⟨[4], 7⟩), (⟨some (.ts 5 (some 0)), false⟩, ⟨[3], 5⟩),
+       (extN 0, ⟨[2], 7⟩), (⟨some (.ts 5 none), false⟩, ⟨[1], 5⟩)] := by
+  refine ⟨by unfold HistA1; decide, by unfold Monotone; decide, by decide⟩
 
 end FV.C18
